@@ -439,8 +439,14 @@ func c23WellFormed(r *vlib.Run, id, mode string, dec *descriptorpb.FileDescripto
 		}
 		for _, c := range locComments(l) {
 			ncomments++
-			for _, line := range strings.Split(c, "\n") {
+			parts := strings.Split(c, "\n")
+			for li, line := range parts {
 				if line == "" {
+					continue
+				}
+				// a line break inside the comment text is a line break of the source
+				if li < len(parts)-1 && !strings.Contains(text, line+"\n") && !strings.Contains(text, line+"\r\n") {
+					viol("c23.comment-not-from-source", "a comment line ends with a line break that the source does not have after it", l, map[string]any{"comment": c, "line": line})
 					continue
 				}
 				if !strings.Contains(text, line) {
@@ -634,6 +640,14 @@ func c23LocationsOnly(r *vlib.Run, id, rel string, dec *descriptorpb.FileDescrip
 // ---------------------------------------------------------------------------
 
 var c23Fixtures = []struct{ name, src string }{
+	// the file ends inside a comment that belongs to a declaration (no final newline)
+	{"eof-trailing-line-comment-option", "syntax = \"proto3\";\noption java_package = \"x\"; // last words"},
+	{"eof-trailing-line-comment-syntax", "syntax = \"proto3\"; // last words"},
+	{"eof-trailing-line-comment-package", "syntax = \"proto3\";\npackage p; // last words"},
+	{"eof-trailing-line-comment-next-line", "syntax = \"proto3\";\noption java_package = \"x\";\n// last words"},
+	{"eof-trailing-block-comment", "syntax = \"proto3\";\noption java_package = \"x\"; /* last words */"},
+	{"eof-trailing-line-comment-field", "syntax = \"proto3\";\nmessage M {\n  int32 a = 1; // tail\n} // after"},
+	{"eof-crlf", "syntax = \"proto3\";\r\npackage p; // c\r\noption java_package = \"x\"; // last words"},
 	// minimal witness: a group whose first token is `group` (no label is possible only inside a oneof)
 	{"group-without-label", "syntax = \"proto2\";\nmessage M {\n  oneof o {\n    // lead\n    group G = 1 { optional int32 a = 2; }\n  }\n}\n"},
 	{"group-with-label", "syntax = \"proto2\";\nmessage M {\n  // lead\n  optional group G = 1 { optional int32 a = 2; }\n}\n"},
